@@ -121,7 +121,11 @@ func main() {
 			}
 			idx := *start + k**stride
 			rs := simfw.Derive(*seed, idx)
-			spec := sim.Gen(rs, *prop, *tier)
+			t := *tier
+			if k == 0 {
+				t += "/first" // simulators may generate a process-cold run for the first run of a process
+			}
+			spec := sim.Gen(rs, *prop, t)
 			raw, _ := json.Marshal(spec)
 			if *curFile != "" {
 				rec, _ := json.Marshal(violationRec{Type: "current", Index: idx, Seed: rs, Spec: raw})
